@@ -117,7 +117,22 @@ func padI(xs []int) []int {
 }
 
 func build(in *Inputs) *shared {
-	s := &shared{in: in, x1: padF(in.X1), x2: padF(in.X2), pos: padF(in.Pos), w: padF(in.W), t: padI(in.T)}
+	s := &shared{in: in, pos: padF(in.Pos), w: padF(in.W), t: padI(in.T)}
+	// x1 and x2 are two windows of ONE backing array with a small gap between them (as when two
+	// stretches of one series are compared): x1's spare capacity runs over x2, so an
+	// append-based "copy" of x1 lands in x2, and the other way round past the end.
+	{
+		n1, n2 := len(in.X1), len(in.X2)
+		gap := 1 + n1%2
+		buf := make([]float64, n1+gap+n2+2*(n1+n2)+4)
+		for i := range buf {
+			buf[i] = sentinel
+		}
+		copy(buf, in.X1)
+		copy(buf[n1+gap:], in.X2)
+		s.x1 = buf[:n1]
+		s.x2 = buf[n1+gap : n1+gap+n2]
+	}
 	asc := append([]float64(nil), in.X1...)
 	sort.Float64s(asc)
 	s.xa = padF(asc)
@@ -509,6 +524,15 @@ func registry() []entry {
 		var b strings.Builder
 		for i := 0; i < t.NumNodes(); i++ {
 			fmt.Fprint(&b, t.Out(i))
+		}
+		// the same shared graph seen from other roots (what is unreachable from 0 matters there)
+		n := s.bg.NumNodes()
+		for _, r := range []int{n - 1, n / 2} {
+			fmt.Fprint(&b, graphalg.IDom(s.bg, r), graphalg.DomFrontier(s.bg, r, nil))
+		}
+		// and the predecessor lists of the shared BiGraph themselves
+		for i := 0; i < n; i++ {
+			fmt.Fprint(&b, s.bg.In(i))
 		}
 		return fmt.Sprint(idom, df) + b.String()
 	})
